@@ -129,6 +129,13 @@ class Random(IO):
     def _name(self):
         return self._info[1]
 
+    def __dask_tokenize__(self):
+        # A node is identified by its realization (the per-block seeds drawn
+        # from the rng, which ``_name`` encodes), not by the current state of
+        # the shared, stateful rng object: two successive draws hold the same
+        # rng operand and would otherwise tokenize alike.
+        return self._name
+
     @property
     def bitgens(self):
         return self._info[0]
